@@ -213,6 +213,10 @@ func (w *Watcher) StopWatching(_ context.Context, id channel.ID) error {
 		// Channel could have been closed while were waiting for the mutex locked.
 		return errors.New("channel not registered with the watcher")
 	}
+	// Refuse before anything is torn down: the channel stays watched.
+	if !ch.isSubChannel() && len(ch.subChs) > 0 {
+		return errors.WithMessagef(ErrSubChannelsPresent, "cannot de-register: %d %v", len(ch.subChs), ch.id)
+	}
 	close(ch.done)
 
 	if ch.isSubChannel() {
@@ -222,8 +226,6 @@ func (w *Watcher) StopWatching(_ context.Context, id channel.ID) error {
 		}
 
 		delete(parent.subChs, id)
-	} else if len(ch.subChs) > 0 {
-		return errors.WithMessagef(ErrSubChannelsPresent, "cannot de-register: %d %v", len(ch.subChs), ch.id)
 	}
 
 	closePubSubs(ch)
